@@ -379,6 +379,12 @@ func (g *Gen) inlineOrAtom(c ctx) []*Node {
 			n.Kids = g.flowKids(cc)
 			if tag == "slot" { // custom elements: repaired in /repo (K17), slot remains
 				g.avoidTrailingP(n)
+			} else if (tag == "x-y" || tag == "my-el") && g.r.Chance(1, 2) {
+				// a paragraph as the LAST child of a custom element: its end tag must stay (the end tag of an unknown element
+				// does not close an open p)
+				pn := g.elem("p")
+				pn.Kids = []*Node{textNode(g.r.Pick("inside", "in side", "x"))}
+				n.Kids = append(n.Kids, pn)
 			}
 		}
 	case "bdo":
